@@ -2,8 +2,8 @@
 # Runs every confirmed seeded change in /verif/seeded against the quick checks that should see it
 # and writes seeded/MATRIX.md.
 #   tools/seed_matrix.sh hermetic   seeds whose checks are seqmc / crashmc / schedmc only: applied in
-#                                   the scratch worktree /tmp/repo-seed, harness built against it into
-#                                   /verif/target-seed (never touches /repo) -> seeded/.matrix.hermetic
+#                                   the scratch worktree /tmp/repo-mx, harness built against it into
+#                                   /verif/target-mx (never touches /repo) -> seeded/.matrix.hermetic
 #   tools/seed_matrix.sh repo       the rest (server binary, ASan workspace, real-binary slices):
 #                                   applied to /repo, bin/check, reverted (/repo must be clean and
 #                                   nothing else may use it meanwhile)          -> seeded/.matrix.repo
@@ -35,10 +35,12 @@ if [ "$MODE" = "merge" ]; then
   echo "merged: $(grep -c '^| C' seeded/MATRIX.md) rows"; exit 0
 fi
 OUT=seeded/.matrix.$MODE
-: > $OUT.tmp
+# incremental: rows of seeds already in the part file are kept (pass "fresh" as 2nd argument to redo all)
+if [ "${2:-}" = "fresh" ] || [ ! -f $OUT ]; then : > $OUT.tmp; else cp $OUT $OUT.tmp; fi
 for d in seeded/*/; do
   n=$(basename $d)
   [ -f $d/patch.diff ] || continue
+  grep -q "^| $n |" $OUT.tmp && continue
   if needs_repo $n; then [ "$MODE" = "repo" ] || continue; else [ "$MODE" = "hermetic" ] || continue; fi
   checks=$(checks_for $n)
   if [ "$MODE" = "hermetic" ]; then
